@@ -5,7 +5,7 @@ import os
 def run(ctx):
     scen = os.path.join(ctx.work, "systems.scen.ndjson")
     open(scen, "w").close()
-    for cfg in (["Gen_n1", "Gen_n2", "Gen_n1z", "Gen_n2z"] if ctx.quick else ["Gen_n1", "Gen_n2", "Gen_n1z", "Gen_n2z", "Gen_n3", "Gen_n3z"]):
+    for cfg in (["Gen_n1", "Gen_n2", "Gen_n1z", "Gen_n2z", "Gen_n1u", "Gen_n2u"] if ctx.quick else ["Gen_n1", "Gen_n2", "Gen_n1z", "Gen_n2z", "Gen_n1u", "Gen_n2u", "Gen_n3", "Gen_n3z"]):
         part = ctx.gen("System", "Gen_System.tla", cfg + ".cfg", cfg, workers=8, timeout=3000, heap="12g")
         with open(scen, "a") as out:
             for line in open(part):
